@@ -140,7 +140,17 @@ def r4_stub_base_only(P, rep, ctx):
     if asserts and not raises:
         rep.info("stub-only-as-base is enforced by an `assert` (removed under python -O): weak, not a violation")
     mf = P.func(f"{MF}.merge_files")
-    rep.check("any(map(is_stub, self.ih5_meta))" in norm(mf.node), "C10.R4", mf.qual, "merge is refused when the set contains a stub (see C05.R1)", mf.loc(), construct="merge refusal", message="merge_files does not test for stubs")
+    g = ctx.cfg(mf)
+    sup = [n.idx for n in g.nodes if any(call_attr(c) == "merge_files" and isinstance(c.func.value, ast.Call) and norm(c.func.value.func) == "super" for c in g.calls(n.idx))]
+    tests = [t.idx for t in g.nodes if t.kind == "test" and norm(t.exprs[0]) == "any(map(is_stub, self.ih5_meta))"]
+    ok = bool(sup) and bool(tests) and all(g.exit not in g.reach([b for b, l in g.succ[t] if l == "T"]) and not (set(sup) & g.reach([b for b, l in g.succ[t] if l == "T"])) for t in tests) and all(g.every_path_passes(tests, s) for s in sup)
+    rep.check(ok, "C10.R4", mf.qual, "a set containing a stub cannot be merged (refusal raises before the merge starts)", mf.loc(), construct="merge refusal", message="IH5MFRecord.merge_files can merge a file set that contains a stub")
+    st = mf.nested.get("is_stub")
+    rep.check(st is not None and [norm(x.value) for x in walk_local(st.node) if isinstance(x, ast.Return)] == ["ext is not None and ext.is_stub_container"], "C10.R4", mf.qual, "stub test = manifest extension present and flagged", mf.loc(), construct="is_stub", message="is_stub is not `ext is not None and ext.is_stub_container`")
+    from .common import require_total
+
+    for q in (f"{MF}.create_stub", f"{MF}._fresh_manifest", f"{MF}.merge_files", f"{M}.IH5Manifest.from_userblock", f"{S}.IH5Skeleton.for_record", f"{S}.SkeletonNodeInfo.for_node"):
+        require_total(rep, ctx, "C10.R4", P.func(q))
 
 
 def r5_manifest_hash(P, rep, ctx):
